@@ -267,7 +267,9 @@ def check_seq_line(op, line, i, flag):
 def run(ctx):
     facts = ctx.facts()
     thms = ctx.build_and_audit(["NutsProofs.Props.C10"])
-    required = ["resolve_order_independent", "store_is_fold", "merge_deterministic", "before_strict_total",
+    required = ["referenced_documents_are_stored", "resolve_reads_the_selected_version", "failed_add_leaves_the_store_unchanged",
+                "doc_shelves_do_not_change_the_store", "stats_codec_roundtrip", "stats_shelf_refines_counters",
+                "resolve_order_independent", "store_is_fold", "merge_deterministic", "before_strict_total",
                 "insert_sorted_perm", "deactivated_monotone", "conflict_resolved_by_covering_update", "stats_order_independent", "stats_are_what_the_states_imply",
                 "observations_order_independent", "restart_changes_nothing", "iterators_agree_with_counters",
                 "resolve_answers_satisfy_filters", "resolve_not_found_means_no_version_matches", "deactivation_is_permanent", "covering_update_resolves_any_order",
